@@ -501,6 +501,46 @@ def r11_no_bottom_for_primitives(repo, RID="C01-R11"):
     return obs
 
 
+def r12_repurposed_type_params(repo):
+    """_create_type_params_from_etype builds the type parameters of a fresh class that stands for an existing type with
+    type variables: each parameter drawn with gen_type_params (random bound, random variance) takes the place of one of
+    those variables and must get *that variable's* bound and no variance on every path before it is registered -
+    otherwise the receiver type Fresh<T> instantiates a parameter with a bound T does not satisfy"""
+    obs = []
+    f = _m(repo, "_create_type_params_from_etype")
+    g = cfg_of(f.node)
+    regs = [n for n in iter_own_nodes(f.node) if isinstance(n, ast.Assign) and isinstance(n.targets[0], ast.Subscript)
+            and isinstance(n.value, ast.Name)]
+    rets = [n for n in iter_own_nodes(f.node) if isinstance(n, ast.Return) and isinstance(n.value, ast.Tuple) and
+            len(n.value.elts) == 3 and isinstance(n.value.elts[1], ast.Dict)]
+    sites = []
+    for n in regs:                                  # type_var_map[type_var] = type_param
+        sites.append((n, n.value.id, "map-entry"))
+    for n in rets:                                  # return type_params, {etype: type_params[0]}, True
+        sites.append((n, src(n.value.elts[1].values[0]), "single-variable"))
+    if not sites:
+        raise AnalysisError("no registration of a re-purposed type parameter found", rule="C01-R12", anchor=f.qualname)
+    for reg, pname, kind in sites:
+        base = pname.split("[")[0]
+        defs = [d for d in g.defs_reaching(base, reg)]
+        if not defs:
+            raise AnalysisError("no definition of %s" % base, rule="C01-R12", anchor=f.qualname)
+        for attr, want in (("bound", None), ("variance", "tp.Invariant")):
+            stores = [n for n in iter_own_nodes(f.node) if isinstance(n, ast.Assign) and
+                      src(n.targets[0]) == "%s.%s" % (pname, attr)]
+            avoid = [g.node(x) for x in stores]
+            okv = all(want is None or src(x.value) == want for x in stores)
+            escapes = []
+            for d_node, _v, _k in defs:
+                if g.path_exists_avoiding(d_node, g.node(reg), avoid):
+                    escapes.append(g.stmt(d_node).lineno)
+            obs.append(Ob("C01-R12", "%s:%s:%s-set-on-every-path" % (kind, pname, attr), _w(f, reg),
+                          bool(stores) and not escapes and okv,
+                          "a path from the choice of `%s` (line %s) reaches its registration without a store to `%s.%s`: the "
+                          "parameter keeps what gen_type_params drew at random" % (pname, escapes or "-", pname, attr)))
+    return obs
+
+
 def r6_inheritance(repo):
     obs = []
     f = _m(repo, "_select_superclass")
@@ -538,8 +578,23 @@ def r6_inheritance(repo):
         ok = ok and ("curr_cls.is_regular()", True) in gs
         d = cfg_of(f.node).defs_reaching("abstract_funcs", lp)
         ok = ok and any(isinstance(x[1], ast.Call) and call_name(x[1]) == "get_abstract_functions" for x in d)
-        # no return between the computation of the abstract functions and the loop
+        # nothing leaves between the computation of the abstract functions and the loop that implements them (a budget
+        # test that returns early leaves a regular class with unimplemented abstract functions)
         g = cfg_of(f.node)
+        dstm = [g.stmt(x[0]) for x in d if isinstance(x[1], ast.Call) and call_name(x[1]) == "get_abstract_functions"]
+        if ok and dstm:
+            ds = dstm[0]
+            same = {(src(t), p) for t, p in flat_guards(ds)} == {(src(t), p) for t, p in flat_guards(lp)}
+            blk = None
+            par = getattr(ds, "_parent", None)
+            for fld in ("body", "orelse", "finalbody"):
+                b = getattr(par, fld, None)
+                if isinstance(b, list) and ds in b and lp in b:
+                    blk = b
+            between = blk[blk.index(ds) + 1:blk.index(lp)] if blk is not None else None
+            leaves = between is None or any(isinstance(n, (ast.Return, ast.Raise, ast.Continue, ast.Break))
+                                            for st in between for n in ast.walk(st))
+            ok = same and not leaves
     obs.append(Ob("C01-R6", "gen_class_functions:every-inherited-abstract-function-implemented", _w(f), ok,
                   "in a regular class every element of get_abstract_functions(...) must reach _gen_func_from_existing (no filter, no continue)"))
     samp = [c for c in calls_in(f.node) if call_name(c) == "sample"]
@@ -810,6 +865,8 @@ def rules():
         RuleSpec("C01-R9", "inherited members are deep copies with substituted types", 9, r9_inherited_members),
         RuleSpec("C01-R10", "declared supertypes of the built-in types lie within the target language's lattice", 60, r10_builtin_lattice),
         RuleSpec("C01-R11", "a bottom constant is never forced for a primitive type", 5, r11_no_bottom_for_primitives),
+        RuleSpec("C01-R12", "type parameters of a class built for an existing type take that type's bounds, on every path", 4,
+                 r12_repurposed_type_params),
     ]
 
 
